@@ -307,10 +307,7 @@ def observe(fam, ris, flags, timeout=-1, start_line=0, full=True, line_numbers=N
     if full:
         g = drive.KernelDG(kernel, parser, mm, sem, timeout=timeout, flag_dependencies=flags)
     else:
-        g = drive.KernelDG.__new__(drive.KernelDG)
-        g.timed_out = False
-        g.kernel, g.parser, g.model, g.arch_sem = kernel, parser, mm, sem
-        g.dg = g.create_DG(kernel, flags)
+        g = drive.graph_only(kernel, parser, mm, sem, flags)
     return kernel, g
 
 
